@@ -125,6 +125,22 @@ def make_frame(rng, info=None, dst_len=None, src_len=None, fmt=0xA, seg=0, ctl=N
     return body + bytes([f & 0xFF, f >> 8])
 
 
+def encode_desc(d):
+    """octets of the frame for a descriptor (fmt, seg, dst, src, ctl, info, fill) — Python twin of FrameDesc.encode"""
+    fmt, seg, dst, src, ctl, info = d[0], d[1], d[2], d[3], d[4], d[5]
+    hdr_len = 2 + len(dst) + len(src) + 1
+    total = hdr_len + 2 + (len(info) + 2 if info else 0)
+    ff = (fmt << 12) | (seg << 11) | total
+    head = bytes([ff >> 8, ff & 0xFF]) + dst + src + bytes([ctl])
+    hcs = fcs16(head)
+    head += bytes([hcs & 0xFF, hcs >> 8])
+    if not info:
+        return head
+    body = head + info
+    f = fcs16(body)
+    return body + bytes([f & 0xFF, f >> 8])
+
+
 def stuff(bs):
     out = bytearray()
     for b in bs:
